@@ -758,6 +758,13 @@ func runPipe(t *testing.T, r *rep.Reporter, c *rep.Case, idx int) {
 		st := mx.NewTarget(fmt.Sprintf("%s_T%d", tag, i), lg)
 		st.Partial = p.Chance(3, 4)
 		name := st.InstName
+		// half of the partial targets report successes explicitly (SetStatus(rcpt, nil)), as
+		// target.remote / target.lmtp do: a success of one expansion of a 1-to-N rewrite may then
+		// precede the failure of another expansion of the same client-supplied recipient
+		st.ExplicitOK = hash01(salt, name, "explicit-ok") < 0.5
+		if st.Partial && st.ExplicitOK {
+			r.Count("pipe_partial_targets_reporting_successes_explicitly", 1)
+		}
 		st.Script = func(pt mx.Point) error {
 			switch pt.Stage {
 			case mx.StRcpt:
